@@ -13,7 +13,8 @@ from vlib import sched
 # name, kind, exempt from optimistic checks (by the property statement)
 ATTRS = [('n', 'int', False), ('k', 'int', False), ('m', 'optint', False), ('s', 'str', False), ('d', 'dec', False),
          ('b', 'bool', False), ('g', 'ref', False),
-         ('f', 'float', True), ('v', 'vol', True), ('u', 'noopt', True)]
+         ('f', 'float', True), ('v', 'vol', True), ('u', 'noopt', True),
+         ('h', 'cref', False)]        # reference to an entity with a composite key: two columns; declared FIRST in the entity
 NAMES = [a[0] for a in ATTRS]
 KIND = {a[0]: a[1] for a in ATTRS}
 EXEMPT = {a[0] for a in ATTRS if a[2]}
@@ -25,6 +26,7 @@ DOMAIN = {
     'dec': ['0.50', '1.25', '2.00', '3.75'],
     'bool': [False, True],
     'ref': [None, 1, 2],
+    'cref': [None, [1, 1], [1, 2], [2, 1]],
     'float': [0.5, 1.5, 2.25, 3.0],
 }
 MAX_OBJS = 2
@@ -37,8 +39,15 @@ def define(db):
         id = PrimaryKey(int)
         es = Set('E')
 
+    class H(db.Entity):
+        x = Required(int)
+        y = Required(int)
+        PrimaryKey(x, y)
+        es = Set('E')
+
     class E(db.Entity):
         id = PrimaryKey(int)
+        h = Optional(H)          # two columns (h_x, h_y), in front of every other attribute
         n = Required(int)
         k = Required(int)
         m = Optional(int)
@@ -49,7 +58,18 @@ def define(db):
         f = Required(float)
         v = Required(int, volatile=True)
         u = Required(int, optimistic=False)
-    return {'E': E, 'G': G}
+    return {'E': E, 'G': G, 'H': H}
+
+
+COLS = {a[0]: ([a[0]] if a[1] != 'cref' else [a[0] + '_x', a[0] + '_y']) for a in ATTRS}
+ALL_COLS = [col for name in NAMES for col in COLS[name]]
+
+
+def raw_values(name, v):
+    """JSON value -> values of the attribute's columns"""
+    if KIND[name] == 'cref':
+        return [None, None] if v is None else list(v)
+    return [v]
 
 
 def domain_value(name, c):
@@ -71,6 +91,8 @@ def to_json(name, v):
         return None
     if kind == 'ref':
         return v if isinstance(v, int) else v.id
+    if kind == 'cref':
+        return list(v) if isinstance(v, (list, tuple)) else [v.x, v.y]
     if kind == 'dec':
         return str(Decimal(v).quantize(Decimal('0.01')))
     if kind == 'bool':
@@ -81,6 +103,8 @@ def to_json(name, v):
 def from_raw(name, raw):
     """value of a raw sqlite3 column -> the same normal form"""
     kind = KIND[name]
+    if kind == 'cref':
+        return None if raw[0] is None and raw[1] is None else list(raw)
     if raw is None:
         return None
     if kind == 'dec':
@@ -121,31 +145,37 @@ def reset_rows(world, rows):
     mon.execute('BEGIN IMMEDIATE')
     mon.execute('DELETE FROM "E"')
     mon.execute('DELETE FROM "G"')
+    mon.execute('DELETE FROM "H"')
     mon.execute('INSERT INTO "G"("id") VALUES (1)')
     mon.execute('INSERT INTO "G"("id") VALUES (2)')
+    for xy in DOMAIN['cref'][1:]:
+        mon.execute('INSERT INTO "H"("x", "y") VALUES (?, ?)', xy)
     for i, choices in enumerate(rows[:MAX_OBJS]):
         vals = []
         for j, name in enumerate(NAMES):
             c = choices[j] if j < len(choices) else 0
             v = domain_value(name, c)
-            if name == 'm' or name == 'g':
-                pass
-            elif v is None:
+            if v is None and name not in ('m', 'g', 'h'):
                 v = 0
-            vals.append(v)
-        mon.execute('INSERT INTO "E"("id", %s) VALUES (?, %s)' % (', '.join('"%s"' % n for n in NAMES), ', '.join('?' * len(NAMES))),
+            vals.extend(raw_values(name, v))
+        mon.execute('INSERT INTO "E"("id", %s) VALUES (?, %s)' % (', '.join('"%s"' % n for n in ALL_COLS), ', '.join('?' * len(ALL_COLS))),
                     [i + 1] + vals)
     mon.execute('COMMIT')
 
 
 def snapshot_fn(world):
     mon = world.monitor()
-    sql = 'SELECT "id", %s FROM "E" ORDER BY "id"' % ', '.join('"%s"' % n for n in NAMES)
+    sql = 'SELECT "id", %s FROM "E" ORDER BY "id"' % ', '.join('"%s"' % n for n in ALL_COLS)
 
     def snapshot():
         out = {}
         for row in mon.execute(sql).fetchall():
-            out[row[0]] = {name: from_raw(name, row[1 + j]) for j, name in enumerate(NAMES)}
+            d, j = {}, 1
+            for name in NAMES:
+                k = len(COLS[name])
+                d[name] = from_raw(name, row[j] if k == 1 else row[j:j + k])
+                j += k
+            out[row[0]] = d
         return out
     return snapshot
 
@@ -171,6 +201,8 @@ def _obj(st, pk):
 def _ref(st, name, v):
     if KIND[name] == 'ref' and v is not None:
         return st.classes['G'][v]
+    if KIND[name] == 'cref' and v is not None:
+        return st.classes['H'][v[0], v[1]]
     return v
 
 
@@ -246,7 +278,7 @@ def make_exec(case):
         if name == 'selkw':
             a = NAMES[op[2] % len(NAMES)]
             jv = domain_value(a, op[3])
-            if KIND[a] in ('float', 'ref', 'bool') or jv is None:
+            if KIND[a] in ('float', 'ref', 'cref', 'bool') or jv is None:
                 return rec
             rec['attr'] = a
             for o in select('x for x in E if x.id == pk and x.%s == val' % a, {'E': E}, {'pk': pk, 'val': to_py(a, jv)})[:]:
@@ -264,7 +296,7 @@ def make_exec(case):
         elif name == 'write':
             a = NAMES[op[2] % len(NAMES)]
             jv = domain_value(a, op[3])
-            if jv is None and a not in ('m', 'g'):
+            if jv is None and a not in ('m', 'g', 'h'):
                 jv = domain_value(a, op[3] + 1)
             setattr(o, a, _ref(st, a, to_py(a, jv)))
             rec['writes'].append([pk, a, jv])
